@@ -116,7 +116,7 @@ def handle (line : String) : String :=
     | _, _ => bad id "parse"
   | ["rg", id, r1, r2, p] =>
     match parseRange r1, parseRange r2, parseProbe p, impl with
-    | some r1, some r2, some p, [acc, hit] =>
+    | some r1, some r2, some p, [acc, hit, docX, docRoot] =>
       -- model: the router refuses the second endpoint iff the ranges overlap;
       -- lookup returns the first registered endpoint whose range matches
       let ov := Range.overlaps r1 r2
@@ -136,9 +136,20 @@ def handle (line : String) : String :=
           | [] => hit == "404"
           | [c] => hit == c.1
           | _ => false
-      let specOk := specAcc && specHit
+      -- the document for the probe version lists exactly the endpoint that serves it, on an
+      -- ordinary path and on the root path alike
+      let specDoc := match p with
+        | none => true
+        | some _ => match holders with
+          | [] => docX == "404" && docRoot == "404"
+          | [c] => docX == c.1 && docRoot == "r" ++ String.ofList (c.1.toList.drop 1)
+          | _ => false
+      let mDocOk := match p with
+        | none => true
+        | some _ => docX == mHit && docRoot == (if mHit == "404" then "404" else "r" ++ String.ofList (mHit.toList.drop 1))
+      let specOk := specAcc && specHit && specDoc
       let known := if !specOk && (isUntilBot r1 || isUntilBot r2) then "K2" else "-"
-      out id (mAcc == acc && mHit == hit) (b2s specOk) s!"rg-{kindOf r1}-{kindOf r2}-acc{mAcc}-{if mHit == "404" then "miss" else mHit}" known s!"{mAcc} {mHit}"
+      out id (mAcc == acc && mHit == hit && mDocOk) (b2s specOk) s!"rg-{kindOf r1}-{kindOf r2}-acc{mAcc}-{if mHit == "404" then "miss" else mHit}" known s!"{mAcc} {mHit}"
     | _, _, _, _ => bad id "parse"
   | ["rg3", id, r1, r2, r3, p] =>
     match parseRange r1, parseRange r2, parseRange r3, parseV p, impl with
